@@ -15,6 +15,7 @@ mod framework;
 mod gen;
 mod model;
 mod pats;
+mod proc;
 mod rng;
 mod run;
 mod shrink;
